@@ -24,10 +24,10 @@ var props = map[string]PropSpec{
 		Quick: []HarnessRun{
 			{Name: "solver.VP_C02_pb_norm", Kind: "L", Params: map[string]int{"k": 4, "W": 1 << 20, "D": 1 << 22}, Bounds: "GtEq/LtEq/Eq/AtMost on <=4 terms over distinct variables, symbolic signs, |coefficient| <= 2^20, |degree| <= 2^22, symbolic assignment; integer printer (no-wrap analysis)", Require: []string{"norm"}},
 			{Name: "solver.VP_C02_pb_norm", Kind: "L", Params: map[string]int{"k": 3, "W": 15, "D": 63, "int": 0}, Bounds: "same lemma, bit-vector printer, |coefficient| <= 15, |degree| <= 63 (cross-check of the integer printer)", Require: []string{"norm"}},
-			{Name: "solver.VP_C02_card_e2e", Kind: "E", Params: map[string]int{"n": 3, "m": 2, "k": 3, "unitfirst": 1}, Bounds: "n=3; one cardinality constraint (AtLeast1/AtMost1/Exactly1/CardConstr with AtLeast in [-1,k+1]) on <=3 distinct variables, optionally preceded by a unit constraint; literals symbolic", Require: []string{"sat", "parse-unsat"}},
-			{Name: "solver.VP_C02_card_e2e", Kind: "E", Params: map[string]int{"n": 3, "m": 2, "k": 2}, Bounds: "n=3; <=2 cardinality constraints on <=2 distinct variables each", Require: []string{"sat", "parse-unsat"}},
-			{Name: "solver.VP_C02_pb_e2e", Kind: "E", Params: map[string]int{"n": 3, "m": 1, "k": 3, "W": 2, "D": 4}, Bounds: "n=3; one constraint from PropClause/AtLeast/AtMost/GtEq/LtEq/Eq on <=3 distinct variables, coefficients in [-2,2], degree in [-4,4]", Require: []string{"sat", "unsat", "parse-unsat"}},
-			{Name: "solver.VP_C02_pb_e2e", Kind: "E", Params: map[string]int{"n": 3, "m": 2, "k": 2, "unitfirst": 1, "W": 2, "D": 3}, Bounds: "n=3; a unit clause followed by one constraint on <=2 distinct variables, coefficients in [-2,2], degree in [-3,3]", Require: []string{"sat", "parse-unsat"}},
+			{Name: "solver.VP_C02_card_units", Kind: "L", Params: map[string]int{"n": 3}, Bounds: "one cardinality constraint (CardConstr with AtLeast in [-1,4], AtMost1, Exactly1) over variables 1..3 with symbolic signs, together with any set of unit constraints (each variable: none/true/false), before or after it; lemma: parsed problem == constraints as written for every assignment; then Solve", Require: []string{"units-lemma", "sat", "parse-unsat"}},
+			{Name: "solver.VP_C02_card_e2e", Kind: "E", Params: map[string]int{"n": 3, "m": 2, "k": 2}, Bounds: "n=3; <=2 cardinality constraints on <=2 distinct variables each, literals fully symbolic", Require: []string{"sat", "parse-unsat"}},
+			{Name: "solver.VP_C02_pb_units", Kind: "L", Params: map[string]int{"n": 3, "W": 3, "D": 8}, Bounds: "one GtEq/LtEq/Eq constraint over variables 1..3, symbolic signs, coefficients in [1,3], degree in [-1,8], with any set of unit constraints before or after it; lemma: parsed problem == constraints as written for every assignment; then Solve", Require: []string{"units-lemma", "sat", "unsat", "parse-unsat"}},
+			{Name: "solver.VP_C02_pb_e2e", Kind: "E", Params: map[string]int{"n": 3, "m": 1, "k": 3, "W": 2, "D": 4}, Bounds: "n=3; one constraint from PropClause/AtLeast/AtMost/GtEq/LtEq/Eq on <=3 distinct variables, literals fully symbolic, coefficients in [-2,2], degree in [-4,4]", Require: []string{"sat", "unsat", "parse-unsat"}},
 		},
 		Thorough: []HarnessRun{
 			{Name: "solver.VP_C02_pb_norm", Kind: "L", Params: map[string]int{"k": 4, "W": 1 << 20, "D": 1 << 22}, Bounds: "as quick", Require: []string{"norm"}},
@@ -36,6 +36,9 @@ var props = map[string]PropSpec{
 			{Name: "solver.VP_C02_pb_e2e", Kind: "E", Params: map[string]int{"n": 3, "m": 2, "k": 3, "unitfirst": 1, "W": 2, "D": 4}, Bounds: "n=3; optional unit clause + one PB constraint on <=3 variables, coefficients [-2,2], degree [-4,4]", Require: []string{"sat", "unsat", "parse-unsat"}},
 			{Name: "solver.VP_C02_pb_e2e", Kind: "E", Params: map[string]int{"n": 3, "m": 2, "k": 2, "kother": 1, "W": 2, "D": 3}, Bounds: "n=3; two constraints of any kind, the first on one variable, the second on <=2", Require: []string{"sat", "parse-unsat"}},
 			{Name: "solver.VP_C02_pb_e2e", Kind: "E", Params: map[string]int{"n": 3, "m": 1, "k": 3, "W": 4, "D": 9}, Bounds: "n=3; one constraint, coefficients [-4,4], degree [-9,9]", Require: []string{"sat", "unsat", "parse-unsat"}},
+			{Name: "solver.VP_C02_card_units", Kind: "L", Params: map[string]int{"n": 4}, Bounds: "as quick with 4 variables", Require: []string{"units-lemma", "sat", "parse-unsat"}},
+			{Name: "solver.VP_C02_pb_units", Kind: "L", Params: map[string]int{"n": 3, "W": 4, "D": 13, "Wlo": -4}, Bounds: "as quick with coefficients in [-4,4], degree in [-1,13]", Require: []string{"units-lemma", "sat", "unsat", "parse-unsat"}},
+			{Name: "solver.VP_C02_pb_units", Kind: "L", Params: map[string]int{"n": 4, "W": 2, "D": 9}, Bounds: "4 variables, coefficients in [1,2]", Require: []string{"units-lemma", "sat", "unsat", "parse-unsat"}},
 		},
 		Outside: "more than 3 variables end to end; more than two constraints; coefficients beyond the stated ranges end to end (the normalisation lemma covers 2^20)",
 	},
@@ -43,7 +46,7 @@ var props = map[string]PropSpec{
 		ID: "C03",
 		Quick: []HarnessRun{
 			{Name: "solver.VP_C03_optim_cnf", Kind: "E", Params: map[string]int{"n": 2, "m": 2, "k": 2, "kc": 2, "W": 2}, Bounds: "n=2 declared variables, <=2 clauses of <=2 symbolic literals; cost function over <=2 distinct variables with symbolic polarity and weights in [0,2], or nil weights, or no cost function; Optimal and Minimize on separately built problems", Require: []string{"sat", "unsat"}},
-			{Name: "solver.VP_C03_optim_cnf", Kind: "E", Params: map[string]int{"n": 3, "m": 1, "k": 2, "kc": 3, "W": 1}, Bounds: "n=3, <=1 clause, cost over <=3 variables, weights in [0,1]", Require: []string{"sat"}},
+			{Name: "solver.VP_C03_optim_cnf", Kind: "E", Params: map[string]int{"n": 3, "m": 2, "k": 2, "kc": 3, "W": 1, "steer": 1, "Wlo": 1, "fullcost": 1, "unitfirst": 1}, Bounds: "n=3, a unit clause and one clause of <=2 literals, cost over all 3 variables with weights 1, every initial phase assignment of the decision heuristic (symbolic phases)", Require: []string{"sat"}},
 			{Name: "solver.VP_C03_optim_pb", Kind: "E", Params: map[string]int{"n": 2, "k": 2, "kc": 2, "W": 2, "PW": 2}, Bounds: "n=2; one PB constraint sum w_i l_i >= d on <=2 distinct variables, w in [1,2], d in [0,5]; cost over <=2 variables, weights [0,2]", Require: []string{"sat", "unsat"}},
 		},
 		Thorough: []HarnessRun{
@@ -53,5 +56,81 @@ var props = map[string]PropSpec{
 		},
 		Assumptions: []string{"cost literals only mention variables the problem declares (ParsePBConstrs cannot declare more); cost weights are non-negative (negative ones only arise through ParseOPB, see C13)"},
 		Outside:     "more than 3 variables; cost weights above 3; several PB constraints together with a cost function",
+	},
+	"C05": {
+		ID: "C05",
+		Quick: []HarnessRun{
+			{Name: "solver.VP_C05_count_cnf", Kind: "E", Params: map[string]int{"n": 3, "m": 2, "k": 2}, Bounds: "n<=3 declared variables (possibly unused), <=2 clauses x <=2 symbolic literals (including none, tautologies, units); CountModels, Enumerate(nil), Enumerate(buffered channel) on three separately built problems", Require: []string{"zero", "all", "some"}},
+			{Name: "solver.VP_C05_count_cnf", Kind: "E", Params: map[string]int{"n": 2, "m": 3, "k": 2}, Bounds: "n<=2, <=3 clauses x <=2 literals", Require: []string{"zero", "all", "some"}},
+			{Name: "solver.VP_C05_count_pb", Kind: "E", Params: map[string]int{"n": 3, "k": 3, "PW": 2}, Bounds: "n=3; one constraint sum w_i l_i >= d on <=3 distinct variables (w in [1,2], d in [0,7]) through ParsePBConstrs, or with unit weights through ParseCardConstrs; optional unit constraint", Require: []string{"zero", "all", "some"}},
+		},
+		Thorough: []HarnessRun{
+			{Name: "solver.VP_C05_count_cnf", Kind: "E", Params: map[string]int{"n": 3, "m": 3, "k": 2}, Bounds: "n<=3, <=3 clauses x <=2 literals", Require: []string{"zero", "all", "some"}},
+			{Name: "solver.VP_C05_count_cnf", Kind: "E", Params: map[string]int{"n": 3, "m": 2, "k": 3}, Bounds: "n<=3, <=2 clauses x <=3 literals", Require: []string{"zero", "all", "some"}},
+			{Name: "solver.VP_C05_count_pb", Kind: "E", Params: map[string]int{"n": 3, "k": 3, "PW": 3}, Bounds: "as quick with w in [1,3]", Require: []string{"zero", "all", "some"}},
+		},
+		Outside: "more than 3 variables; several PB constraints; enumeration with an unbuffered channel and a concurrent consumer (see C20)",
+	},
+	"C06": {
+		ID: "C06",
+		Quick: []HarnessRun{
+			{Name: "solver.VP_C06_cert_e2e", Kind: "E", Params: map[string]int{"n": 2, "m": 3, "k": 2, "smalldb": 1}, Bounds: "n<=2, <=3 clauses x <=2 symbolic literals; Certified with buffered CertChan; learnt-clause limit default/1; uncertified twin on a copy; certificate replayed by an independent RUP procedure", Require: []string{"sat", "unsat", "line"}},
+			{Name: "solver.VP_C06_cert_e2e", Kind: "E", Params: map[string]int{"n": 3, "m": 2, "k": 3, "steer": 1}, Bounds: "n<=3, <=2 clauses x <=3 literals, every initial phase assignment", Require: []string{"sat", "unsat"}},
+		},
+		Thorough: []HarnessRun{
+			{Name: "solver.VP_C06_cert_e2e", Kind: "E", Params: map[string]int{"n": 3, "m": 3, "k": 2, "smalldb": 1}, Bounds: "n<=3, <=3 clauses x <=2 literals", Require: []string{"sat", "unsat", "line"}},
+			{Name: "solver.VP_C06_cert_e2e", Kind: "E", Params: map[string]int{"n": 2, "m": 4, "k": 2, "smalldb": 1, "steer": 1}, Bounds: "n<=2, <=4 clauses, all phases", Require: []string{"sat", "unsat", "line"}},
+		},
+		Outside: "certificates written to stdout (CertChan nil) are covered through C19 only; formulas beyond the bounds; certificates with clause deletion on larger instances",
+	},
+	"C07": {
+		ID: "C07",
+		Quick: []HarnessRun{
+			{Name: "explain.VP_C07_mus", Kind: "E", Params: map[string]int{"n": 2, "m": 3, "k": 2}, Bounds: "problems of <=3 clauses x <=2 literals over 2 variables (units, repeated clauses, trivially conflicting units, several cores), solver-enumerated; methods MUS, MUSDeletion, MUSInsertion, MUSMaxSat (the last one only on problems with at most one MUS: known finding)", Require: []string{"sat", "unsat"}},
+		},
+		Thorough: []HarnessRun{
+			{Name: "explain.VP_C07_mus", Kind: "E", Params: map[string]int{"n": 2, "m": 4, "k": 2}, Bounds: "<=4 clauses x <=2 literals over 2 variables", Require: []string{"sat", "unsat"}},
+			{Name: "explain.VP_C07_mus", Kind: "E", Params: map[string]int{"n": 3, "m": 3, "k": 2}, Bounds: "<=3 clauses x <=2 literals over 3 variables", Require: []string{"sat", "unsat"}},
+		},
+		Assumptions: []string{"the literals are concretised when the DIMACS text is rendered (the API takes text), so the engine explores one path per input; the deciding step per input is the interpretation of the real code against an independent brute-force oracle"},
+		Outside:     "more than 4 clauses or 3 variables; MUSMaxSat on problems with several MUSes (known finding)",
+	},
+	"C08": {
+		ID: "C08",
+		Quick: []HarnessRun{
+			{Name: "explain.VP_C08_checker", Kind: "E", Params: map[string]int{"n": 2, "m": 2, "k": 2, "cm": 1, "ck": 2}, Bounds: "problems of <=2 clauses x <=2 literals over 2 variables; certificates of <=1 line of <=2 literals (empty clause included), arbitrary; reader and channel entry points; second identical call", Require: []string{"valid", "invalid"}},
+			{Name: "explain.VP_C08_checker", Kind: "E", Params: map[string]int{"n": 2, "m": 1, "k": 2, "cm": 2, "ck": 2}, Bounds: "problems of <=1 clause; certificates of <=2 lines", Require: []string{"valid", "invalid"}},
+			{Name: "explain.VP_C08_subset", Kind: "E", Params: map[string]int{"n": 2, "m": 3, "k": 2}, Bounds: "UnsatSubset on problems of <=3 clauses x <=2 literals over 2 variables", Require: []string{"sat", "unsat"}},
+		},
+		Thorough: []HarnessRun{
+			{Name: "explain.VP_C08_checker", Kind: "E", Params: map[string]int{"n": 2, "m": 2, "k": 2, "cm": 2, "ck": 2}, Bounds: "<=2 clauses; certificates of <=2 lines", Require: []string{"valid", "invalid"}},
+			{Name: "explain.VP_C08_subset", Kind: "E", Params: map[string]int{"n": 3, "m": 3, "k": 2}, Bounds: "3 variables", Require: []string{"sat", "unsat"}},
+		},
+		Assumptions: []string{"completeness is asserted only for lines without complementary literals (whether a tautology is 'derivable by unit propagation' is a matter of definition)"},
+		Outside:     "longer certificates; genuine solver traces as certificates are exercised through UnsatSubset (C08 subset, C07) and C06",
+	},
+	"C09": {
+		ID: "C09",
+		Quick: []HarnessRun{
+			{Name: "solver.VP_C09_append_hist", Kind: "E", Params: map[string]int{"n": 2, "m": 1, "k": 2, "steps": 1, "ka": 2, "W": 2}, Bounds: "base: <=1 clause of <=2 literals over 2 declared variables; one operation from {Solve, AppendClause(clause), AppendClause(cardinality), AppendClause(PB)} on <=2 distinct variables out of 3 (one unseen), weights in [1,2], then Solve", Require: []string{"sat", "unsat", "add-clause", "add-card", "add-pb"}},
+			{Name: "solver.VP_C09_append_hist", Kind: "E", Params: map[string]int{"n": 2, "m": 1, "k": 1, "steps": 2, "ka": 1, "W": 1}, Bounds: "base: <=1 unit clause; two operations with unit constraints (already satisfied, contradictory, new variable), Solve in between or not, then Solve", Require: []string{"sat", "unsat"}},
+		},
+		Thorough: []HarnessRun{
+			{Name: "solver.VP_C09_append_hist", Kind: "E", Params: map[string]int{"n": 2, "m": 2, "k": 2, "steps": 1, "ka": 2, "W": 2}, Bounds: "base <=2 clauses; one operation", Require: []string{"sat", "unsat", "add-clause", "add-card", "add-pb"}},
+			{Name: "solver.VP_C09_append_hist", Kind: "E", Params: map[string]int{"n": 2, "m": 1, "k": 2, "steps": 2, "ka": 2, "W": 1}, Bounds: "base <=1 clause; two operations on <=2 variables, unit weights", Require: []string{"sat", "unsat"}},
+		},
+		Assumptions: []string{"each variable occurs at most once inside an added constraint (constraints that repeat a literal are outside this check: see DESIGN.md)"},
+		Outside:     "histories longer than two additions; added constraints that repeat a literal; more than 3 variables",
+	},
+	"C10": {
+		ID: "C10",
+		Quick: []HarnessRun{
+			{Name: "solver.VP_C10_assume_rounds", Kind: "E", Params: map[string]int{"n": 2, "m": 2, "k": 2, "rounds": 2, "ka": 2}, Bounds: "base CNF n=2, <=2 clauses x <=2 literals (with unit clauses and parse-time facts); <=2 rounds of <=2 assumed literals each (empty, repeated, complementary, contradicting a fact or the previous round)", Require: []string{"sat", "unsat", "base-unsat"}},
+		},
+		Thorough: []HarnessRun{
+			{Name: "solver.VP_C10_assume_rounds", Kind: "E", Params: map[string]int{"n": 2, "m": 2, "k": 2, "rounds": 3, "ka": 1}, Bounds: "three rounds of <=1 literal", Require: []string{"sat", "unsat"}},
+			{Name: "solver.VP_C10_assume_rounds", Kind: "E", Params: map[string]int{"n": 3, "m": 2, "k": 2, "rounds": 2, "ka": 1}, Bounds: "n=3, two rounds of <=1 literal", Require: []string{"sat", "unsat"}},
+		},
+		Outside: "more than 3 rounds or 3 variables; assumptions combined with AppendClause",
 	},
 }
